@@ -146,9 +146,8 @@ def run(facts, rep, tier):
             if s["k"] == "assign" and s["place"]["local"] == 0 and not s["place"]["proj"] and s["rv"]["k"] == "use":
                 ret_src = operand_place(s["rv"]["x"])
     if ret_src is not None:
-        ds = ctdu.whole_defs(ret_src["local"])
-        if len(ds) == 1 and ds[0][0] == "call":
-            newfn = callee_name(ds[0][3])
+        newfn = _blank_source(facts, cb, ctdu, ret_src)
+        if newfn is not None:
             if newfn in facts.bodies:
                 aggs = [a for a in adt_aggregates(facts, "Plane") if a["body"].name == newfn]
                 if len(aggs) == 1:
@@ -351,13 +350,44 @@ def _only_consts_or_now(e):
     return False
 
 
+def _returned_local(cb):
+    ret_src = None
+    for blk in cb.blocks:
+        for s in blk["stmts"]:
+            if s["k"] == "assign" and s["place"]["local"] == 0 and not s["place"]["proj"] and s["rv"]["k"] == "use":
+                ret_src = operand_place(s["rv"]["x"])
+    return ret_src
+
+
+def _blank_source(facts, cb, du, ret_src, depth=0):
+    """the function whose `Plane { .. }` aggregate the constructor's returned row starts from: the returned local is defined by
+    one call; that callee either holds the aggregate or is itself such a wrapper (`Plane::with_icao(icao)`: blank row + the
+    address) whose arguments are the caller's own parameters / constants"""
+    if ret_src is None or depth > 3:
+        return None
+    ds = du.whole_defs(ret_src["local"])
+    if not (len(ds) == 1 and ds[0][0] == "call"):
+        return None
+    t = ds[0][3]
+    fn = callee_name(t)
+    if fn not in facts.bodies:
+        return fn
+    if any(a["body"].name == fn for a in adt_aggregates(facts, "Plane")):
+        return fn
+    for a in t["args"]:
+        e = expr(du, a)
+        if not (e[0] in ("arg", "const") or (e[0] == "path" and e[1][0] == "arg")):
+            return None
+    fb = facts.bodies[fn]
+    return _blank_source(facts, fb, DefUse(fb), _returned_local(fb), depth + 1)
+
+
 def _ctor_stamps(facts, cb, du, st, ret_src):
     """constructor: the returned local comes from a fn whose aggregate stamps Utc::now, or a later call stamps it"""
     if ret_src is None:
         return False
-    ds = du.whole_defs(ret_src["local"])
-    if len(ds) == 1 and ds[0][0] == "call":
-        newfn = callee_name(ds[0][3])
+    newfn = _blank_source(facts, cb, du, ret_src)
+    if newfn is not None:
         for a in adt_aggregates(facts, "Plane"):
             if a["body"].name == newfn:
                 rv = a["stmt"]["rv"]
